@@ -401,7 +401,22 @@ py_check_data_alignment(PyObject *self, PyObject *args)
     Py_RETURN_FALSE;
 }
 
+#ifdef KENTBECK_BPLUSTREE3_VERIF
+/* Verification hook: (nodes created, nodes freed, temp arrays allocated, temp arrays freed),
+ * process-wide totals since the module was loaded */
+static PyObject *
+py_verif_counters(PyObject *self, PyObject *Py_UNUSED(ignored))
+{
+    return Py_BuildValue("(nnnn)", (Py_ssize_t)verif_nodes_created, (Py_ssize_t)verif_nodes_freed,
+                         (Py_ssize_t)verif_temp_allocs, (Py_ssize_t)verif_temp_frees);
+}
+#endif
+
 static PyMethodDef module_methods[] = {
+#ifdef KENTBECK_BPLUSTREE3_VERIF
+    {"_verif_counters", py_verif_counters, METH_NOARGS,
+     "verification hook: (nodes created, nodes freed, temp arrays allocated, temp arrays freed)"},
+#endif
     {"_check_data_alignment", py_check_data_alignment, METH_VARARGS,
      "Return True if node->data is aligned to CACHE_LINE_SIZE (optional capacity)"},
     {NULL, NULL, 0, NULL}
